@@ -523,10 +523,12 @@ class WebSocketResponse(StreamResponse, Generic[_DecodeText]):
             return False
         self._set_closed()
 
+        # A single deadline for the whole close handshake.
+        deadline = asyncio.get_running_loop().time() + self._timeout
         try:
             # The peer may have stopped reading: sending the CLOSE frame
             # is bounded by the close timeout as well.
-            async with async_timeout.timeout(self._timeout):
+            async with async_timeout.timeout_at(deadline):
                 await self._writer.close(code, message)
                 writer = self._payload_writer
                 assert writer is not None
@@ -556,7 +558,7 @@ class WebSocketResponse(StreamResponse, Generic[_DecodeText]):
             return True
 
         try:
-            async with async_timeout.timeout(self._timeout):
+            async with async_timeout.timeout_at(deadline):
                 while True:
                     msg = await reader.read()
                     if msg.type is WSMsgType.CLOSE:
